@@ -84,11 +84,22 @@ func (p *Pipeline) HandleWithBeforeAfter(ctx *context.Context, before *Pipeline,
 ghost var gReloaded int      // the pipeline whose reload has completed
 ghost var gClosedAfter int   // value of gReloaded when the previous generation was closed
 
+// C02: the flow a generation runs is the flow of its spec - every node of it, in the spec's order - or, when the
+// spec gives none, one node per filter in the order of the filter list; every node that is not END is bound to
+// the filter instance registered under the node's filter name (a panic here is the caller's to recover)
 func (p *Pipeline) reload(previousGeneration *Pipeline)
-  trusted
   flag allocates
-  modifies gReloaded, p.filters, p.flow, p.resilience
+  requires p != nil && p.spec != nil && p.superSpec != nil && p.superSpec.meta != nil
+  modifies gReloaded, p.filters, p.flow, p.resilience, allof("elem<object/pipeline.FlowNode>.filter#typ"), allof("elem<object/pipeline.FlowNode>.filter#val")
+  panics_only_if true
   ensures gReloaded == ref(p)
+  ensures an-explicit-flow-is-run-whole: len(p.spec.Flow) != 0 ==> ref(p.flow) == ref(p.spec.Flow) && len(p.flow) == len(p.spec.Flow)
+  ensures without-a-flow-every-filter-is-a-node-in-list-order: len(p.spec.Flow) == 0 ==> len(p.flow) == len(p.spec.Filters)
+  ensures every-node-is-bound-to-the-filter-of-its-name: forall i int :: 0 <= i && i < len(p.flow) && p.flow[i].FilterName != "END" ==> p.flow[i].filter == p.filters[p.flow[i].FilterName]
+  ghost at return: gReloaded := ref(p)
+  invariant[1] p.filters != nil && p.resilience != nil && fresh(p.filters) && fresh(p.resilience)
+  invariant[2] p.filters != nil && p.resilience != nil && fresh(p.filters) && fresh(p.resilience) && (len(p.spec.Flow) != 0 ==> ref(flow) == ref(p.spec.Flow) && len(flow) == len(p.spec.Flow)) && (len(p.spec.Flow) == 0 ==> len(flow) == idx$2 && fresh(flow))
+  invariant[3] p.filters != nil && ref(p.flow) == ref(flow) && len(p.flow) == len(flow) && (len(p.spec.Flow) != 0 ==> ref(flow) == ref(p.spec.Flow) && len(flow) == len(p.spec.Flow)) && (len(p.spec.Flow) == 0 ==> len(flow) == len(p.spec.Filters)) && 0 <= i && i <= len(flow) && (forall j int :: 0 <= j && j < i && flow[j].FilterName != "END" ==> flow[j].filter == p.filters[flow[j].FilterName])
 
 // C11: closing a generation closes each of its filters once and leaves the generation's own data - flow, filter
 // table, spec - as it is: a request that already holds this generation still walks the same flow
@@ -106,7 +117,7 @@ func (p *Pipeline) Inherit(superSpec *supervisor.Spec, previousGeneration superv
   flag allocates
   requires p != nil && superSpec != nil
   requires same-kind-predecessor: typeIs(previousGeneration, "*Pipeline") && ifaceVal(previousGeneration) != 0 && ifaceVal(previousGeneration) != ref(p)
-  requires spec-of-this-kind: typeIs(superSpec.objectSpec, "*Spec")
+  requires spec-of-this-kind: typeIs(superSpec.objectSpec, "*Spec") && ifaceVal(superSpec.objectSpec) != 0 && superSpec.meta != nil
   modifies p.superSpec, p.spec, p.filters, p.flow, p.resilience, gReloaded, gClosedAfter, gFiltersClosed
   ensures old-generation-closed-only-after-the-new-one-is-built: gClosedAfter == ref(p) && gReloaded == ref(p)
   ensures new-spec-installed: p.superSpec == superSpec
@@ -147,13 +158,13 @@ func (s *Spec) ValidateJumpIf(specs map[string]filters.Spec)
 ghost var gFlowChecked bool
 ghost var gSpecsLen int
 ghost var gPolicies int
-func (s *Spec) Validate() (err error)
+func (ps *Spec) Validate() (err error)
   flag allocates
-  requires s != nil
+  requires ps != nil
   modifies gFlowChecked, gSpecsLen, gPolicies
   panics_only_if true
-  ensures accepted-specs-passed-the-flow-check-with-one-entry-per-filter: err == nil && gFlowChecked && gSpecsLen == len(s.Filters)
-  ensures every-resilience-policy-was-built: gPolicies == len(s.Resilience)
+  ensures accepted-specs-passed-the-flow-check-with-one-entry-per-filter: err == nil && gFlowChecked && gSpecsLen == len(ps.Filters)
+  ensures every-resilience-policy-was-built: gPolicies == len(ps.Resilience)
   ghost at entry: gFlowChecked := false
   ghost at entry: gPolicies := 0
   ghost at call[1] ValidateJumpIf: gFlowChecked := true
